@@ -171,6 +171,12 @@ func oracleC01(x *exec, v *viols, pre, post *snap, rp *reply) {
 			reserved = parseSet(z.Attr["reserved cpuset"])
 		}
 	}
+	// a reservation given as a cpuset is the reference itself (a quantity leaves the choice of CPUs to the policy)
+	if cfg := x.taConfig(); cfg != nil {
+		if r := string(cfg.Spec.Config.ReservedResources["cpu"]); strings.HasPrefix(r, "cpuset:") {
+			reserved = parseSet(strings.TrimPrefix(r, "cpuset:"))
+		}
+	}
 	for i, a := range live {
 		ea := excl[a.id()]
 		for _, b := range live[i+1:] {
